@@ -65,7 +65,8 @@ func (f *fetchResult) getResponse() (data io.ReadCloser, header http.Header, sta
 	case fetchTypeDirect:
 		return f.Direct.Response.Body, f.Direct.Response.Header, f.Direct.UpstreamStatus
 	case fetchTypeCached:
-		return f.Cached.Entry.Data, f.Cached.Entry.Metadata.Object.Header, f.Cached.UpstreamStatus
+		// A stored entry is always a 200 response (UpstreamStatus is not set for a cache hit)
+		return f.Cached.Entry.Data, f.Cached.Entry.Metadata.Object.Header, http.StatusOK
 	}
 	return nil, nil, 0
 }
